@@ -326,5 +326,51 @@ verif_remove_nan_mut::<A>(lane)
 //@end
 }
 
+impl<A: MaybeNan> ArrL<A> {
+//@extract file=src/maybe_nan/mod.rs impl=MaybeNanExt:ArrayBase fn=map_axis_skipnan_mut id=ArrL::map_axis_skipnan_mut tags=C14 body_tags=C14 lower=map_axis_mut
+//@sig
+    fn map_axis_skipnan_mut<B, F>(&mut self, axis: Axis, mut mapping: F) -> (r: ArrS<B>)
+    where
+        F: FnMut(ArrL<A::NotNan>) -> B,
+//@spec
+        requires old(self).wf(axis.0 as int), forall|l: ArrL<A::NotNan>| #[trigger] call_requires(mapping, (l,)),
+        ensures
+            // one result per lane: the mapping applied to the lane with the missing values removed (each lane once)
+            r.elems().len() == old(self).lanes(axis.0 as int).len(), // [C14]
+            forall|j: int| 0 <= j < r.elems().len() ==> mapped_lane::<A, B, F>(mapping, old(self).lanes(axis.0 as int)[j], #[trigger] r.elems()[j]), // [C14]
+//@replace_text
+A::remove_nan_mut(lane)
+verif_remove_nan_mut::<A>(lane)
+//@at entry
+        let ghost f0 = mapping; let ghost l0 = old(self).lanes(axis.0 as int); let ghost nl = l0.len() as int;
+//@loop 0
+            invariant
+                forall|l: ArrL<A::NotNan>| #[trigger] call_requires(mapping, (l,)),
+                forall|l: ArrL<A::NotNan>, out: B| #[trigger] call_ensures(mapping, (l,), out) <==> call_ensures(f0, (l,), out),
+                it.seq() == __lzs, __lzs.len() == nl, self.lanes(axis.0 as int) == l0, self.wf(axis.0 as int), nl == l0.len(),
+                forall|k: int| 0 <= k < nl ==> #[trigger] __lzs[k] < nl,
+                forall|k1: int, k2: int| 0 <= k1 < k2 < nl ==> __lzs[k1] != __lzs[k2],
+                forall|j: int| 0 <= j < nl ==> #[trigger] visits(__lzs, j),
+                __res.slots().len() == nl,
+                forall|k: int| 0 <= k < it.index@ ==> (#[trigger] __res.slots()[__lzs[k] as int]) is Some && mapped_lane::<A, B, F>(f0, l0[__lzs[k] as int], __res.slots()[__lzs[k] as int]->Some_0), // [C14]
+//@at loop_start 0
+            proof { assert(__j == __lzs[it.index@]); assert(lane@ == l0[__j as int]); }
+            let ghost slots_before = __res.slots();
+//@at loop_end 0
+            proof {
+                assert(__res.slots() == slots_before.update(__j as int, __res.slots()[__j as int]));
+                assert(mapped_lane::<A, B, F>(f0, l0[__j as int], __res.slots()[__j as int]->Some_0));
+            }
+//@at after_loop 0
+        proof {
+            assert forall|j: int| 0 <= j < nl implies (#[trigger] __res.slots()[j]) is Some && mapped_lane::<A, B, F>(f0, l0[j], __res.slots()[j]->Some_0) by {
+                assert(visits(__lzs, j));
+                let k = choose|k: int| 0 <= k < __lzs.len() && __lzs[k] == j;
+                assert(__res.slots()[__lzs[k] as int] is Some);
+            }
+        }
+//@end
+}
+
 } // verus!
 fn main() {}
